@@ -31,6 +31,12 @@ Every event is executed through `Cache.transaction(mode)` / the `Cache` command 
 cache, and every command also on a second `Cache` whose `Memory` started as a copy of the first ("direct").
 After each event the raw backend stores are read without touching them (the outside observer).
 
+Control state: `disable <word>...` / `enable <word>...` (anywhere in a program; words = the protocol words of the commands)
+call `cache.disable(Command.X, ...)` / `cache.enable(...)` on the transactional cache and on the direct copy.  A command that
+is disabled when it is issued goes nowhere and hands back its default (`N` = None); commands that were enabled when issued
+have been accepted into the transaction and a commit has to apply all of them, whatever is disabled by then (the flush of a
+commit uses `delete_many` / `set_many` on the backend object, which is not a command of the user).
+
 Reads: `get <k>` / `getmany <k>...` pass the harness's private sentinel object as `default` (answer `-` = not there);
 `get <k> d=<val>` / `getmany <k>... d=<val>` pass a value of the alphabet as the CALLER'S default (None, a small int,
 or the very token object that `set` stores: tokens are interned, so `set 0 t:1 - a` and `d=t:1` hand the library the
@@ -189,6 +195,11 @@ class _SameObjects:
 
 
 PATTERN_CMDS = ("delmatch", "scan", "getmatch")
+CONTROL_WORDS = {"set": "SET", "setmany": "SET_MANY", "get": "GET", "getmany": "GET_MANY", "exists": "EXISTS", "incr": "INCR",
+                 "delete": "DELETE", "delmany": "DELETE_MANY", "expire": "EXPIRE", "getexpire": "GET_EXPIRE",
+                 "delmatch": "DELETE_MATCH", "scan": "SCAN", "getmatch": "GET_MATCH"}
+BULK_OF = {"set": "setmany", "incr": "setmany", "expire": "setmany", "setmany": "setmany", "delete": "delmany",
+           "delmany": "delmany", "delmatch": "delmany"}      # the bulk command a commit flushes an accepted write with
 WRITE_CMDS = ("set", "setmany", "incr", "delete", "delmany", "expire", "delmatch")
 
 
@@ -229,7 +240,7 @@ class _Exec:
         if op == "set":
             k, v, ttl, c = tx_name(w[1]), val_of(w[2]), ttl_of(w[3]), {"a": None, "nx": False, "xx": True}[w[4]]
             r = await api.set(k, v, expire=ttl, exist=c)
-            return "T" if r is True else "F" if r is False else f"?{r!r}"
+            return "T" if r is True else "F" if r is False else "N" if r is None else f"?{r!r}"
         if op == "setmany":
             pairs = {}
             for kv in w[2:]:
@@ -244,16 +255,16 @@ class _Exec:
             return "vs=" + ",".join(show_val(v) for v in r)
         if op == "exists":
             r = await api.exists(tx_name(w[1]))
-            return "T" if r is True else "F" if r is False else f"?{r!r}"
+            return "T" if r is True else "F" if r is False else "N" if r is None else f"?{r!r}"
         if op == "incr":
             try:
                 r = await api.incr(tx_name(w[1]), int(w[2]), expire=ttl_of(w[3]))
             except (ValueError, TypeError):
                 return "E"
-            return f"n={r}" if type(r) is int else f"?{r!r}"
+            return f"n={r}" if type(r) is int else "N" if r is None else f"?{r!r}"
         if op == "delete":
             r = await api.delete(tx_name(w[1]))
-            return "T" if r is True else "F" if r is False else f"?{r!r}"
+            return "T" if r is True else "F" if r is False else "N" if r is None else f"?{r!r}"
         if op == "delmany":
             r = await api.delete_many(*[tx_name(x) for x in w[1:]])
             return "U" if r is None else f"?{r!r}"
@@ -263,7 +274,7 @@ class _Exec:
             return "U"
         if op == "getexpire":
             r = await api.get_expire(tx_name(w[1]))
-            return f"n={r}" if type(r) is int else f"?{r!r}"
+            return f"n={r}" if type(r) is int else "N" if r is None else f"?{r!r}"
         if op == "delmatch":
             r = await api.delete_match(dec(w[1]))
             return "U" if r is None else f"?{r!r}"
@@ -296,6 +307,8 @@ class TxRunner:
         self.after_explicit = ""                    # 'rollback' / 'commitnow' was called earlier in the block that is still open
         self.seg_patterns: list[str] = []           # patterns of the delete_match calls of the running transaction segment
         self.seg_marked: dict[str, set] = {}        # pattern -> store keys it marked for deletion in this segment
+        self.disabled: set[str] = set()             # protocol words of the commands that are disabled right now
+        self.seg_accepted: set[str] = set()         # write commands accepted into the running transaction segment
 
     def bump(self, k: str):
         self.stats[k] = self.stats.get(k, 0) + 1
@@ -475,6 +488,15 @@ class TxRunner:
         if txb is None:
             return
         pending = bool(txb._local_cache.store) or bool(txb._to_delete)
+        if pending and how in ("commit", "commitnow") and self.disabled:
+            self.bump("commit_under_a_control_state")
+            for wcmd in self.seg_accepted:
+                if BULK_OF[wcmd] in self.disabled:
+                    self.bump("commit_of_accepted_writes_whose_bulk_flush_command_is_disabled")      # seeded C03-12
+                    if wcmd not in self.disabled and wcmd != BULK_OF[wcmd]:
+                        self.bump("commit_bulk_disabled_single_enabled")
+            if any(wcmd in self.disabled for wcmd in self.seg_accepted):
+                self.bump("commit_of_writes_whose_own_command_was_disabled_later")
         if pending:
             self.bump(f"{how}_with_pending_writes")
         for _, (exp, _v) in txb._local_cache.store.items():
@@ -496,6 +518,9 @@ class TxRunner:
         self.direct = Cache()
         self.dbackend = self.direct.setup(url)
         await self.direct.init()
+        # `_transaction` and the disable sets are ContextVars: the direct copy lives in a context of its own, outside every
+        # transaction of the task, which keeps what `disable` / `enable` did to it
+        self.dctx = contextvars.copy_context()
         self.r_tx = _Exec(_SameObjects(self.cache), self.backend)
         self.r_d = _Exec(_SameObjects(self.direct), self.dbackend)
 
@@ -506,7 +531,12 @@ class TxRunner:
             a = b = "U"
         else:
             if not init and self.frames:
-                self._classify(w)
+                if w[0] in self.disabled:
+                    self.bump("disabled_command_inside_transaction")
+                else:
+                    if w[0] in WRITE_CMDS:
+                        self.seg_accepted.add(w[0])
+                    self._classify(w)
                 if self.after_reentry and w[0] in WRITE_CMDS:
                     self.bump("write_after_reentered_block_ended")
                 if self.after_explicit and w[0] in WRITE_CMDS:
@@ -518,13 +548,28 @@ class TxRunner:
             try:
                 # `_transaction` is a module-level ContextVar shared by every Cache object: the direct copy must
                 # run in a context of its own, outside the transaction
-                b = await asyncio.get_running_loop().create_task(self.r_d._exec(w), context=contextvars.Context())
+                b = await asyncio.get_running_loop().create_task(self.r_d._exec(w), context=self.dctx)
             except Exception as exc:
                 b = f"X:{type(exc).__name__}"
         if init:
             self.trace.append(("init " + line, "ok " + await self.views()))
         else:
             self.trace.append((line, f"tx={a} direct={b} " + await self.views()))
+
+    async def _control(self, line: str, w: list[str]):
+        from cashews import Command
+
+        cmds = [getattr(Command, CONTROL_WORDS[x]) for x in w[1:]]
+        if w[0] == "disable":
+            self.cache.disable(*cmds)
+            self.dctx.run(self.direct.disable, *cmds)
+            self.disabled |= set(w[1:])
+            self.bump("disable_inside_block" if self.frames else "disable_outside_block")
+        else:
+            self.cache.enable(*cmds)
+            self.dctx.run(self.direct.enable, *cmds)
+            self.disabled -= set(w[1:])
+        self.trace.append((line, "ok " + await self.views()))
 
     def _context_object(self, kind: str, mode):
         name = shared_name(kind)
@@ -580,6 +625,7 @@ class TxRunner:
                     self.after_reentry = False
                     self.after_explicit = ""
                     self.seg_patterns, self.seg_marked = [], {}
+                    self.seg_accepted = set()
 
         res = "U"
         came_out = "ok"
@@ -645,8 +691,12 @@ class TxRunner:
                 self.trace.append((line, f"tx={res} " + await self.views()))
                 self.resync()
                 self.seg_patterns, self.seg_marked = [], {}
+                self.seg_accepted = set()
                 if self.frames:
                     self.after_explicit = w[0]
+                continue
+            if w[0] in ("disable", "enable"):
+                await self._control(line, w)
                 continue
             await self._command(line)
         return "ok"
@@ -870,6 +920,16 @@ def gen_command(rng, ttls, recent: list[str] | None = None) -> str:
 
 
 POOL = ["@0", "@1", "@2"]
+CONTROL_SETS = [["delmany"], ["setmany"], ["delmany", "delmatch"], ["setmany", "delmany"], ["set"], ["delete"], ["incr"], ["expire"],
+                ["delmatch"], ["set", "setmany"], ["delete", "delmany"], ["get", "getmany"], ["exists"], ["scan", "getmatch"],
+                ["getexpire"]]
+
+
+def gen_control(rng) -> str:
+    """`disable` of a few commands (bulk commands more often than not), now and then `enable` of everything"""
+    if rng.random() < 0.25:
+        return "enable " + " ".join(CONTROL_WORDS)
+    return "disable " + " ".join(rng.choice(CONTROL_SETS))
 
 
 def pick_kind(rng, stack: list[str]) -> str:
@@ -906,6 +966,8 @@ def gen_events(rng, maxlen: int, crossing: bool) -> list[str]:
     ev = []
     used = 0
     for _ in range(rng.choice([1, 1, 1, 2, 2, 3])):
+        if rng.random() < 0.12:
+            ev.append(gen_control(rng))                        # the control state changes before a block
         if rng.random() < 0.2:
             ev.append(gen_command(rng, ttls, recent))          # a command outside any block
         depth = rng.choice([1, 1, 1, 2, 2, 2, 3, 3, 4])
@@ -932,6 +994,8 @@ def gen_events(rng, maxlen: int, crossing: bool) -> list[str]:
                 ev.append(f"adv {dt}")
             elif r < 0.46:
                 ev.append(rng.choice(["rollback", "rollback", "commitnow"]))
+            elif r < 0.48:
+                ev.append(gen_control(rng))                    # ... or in the middle of one
             else:
                 c = gen_command(rng, ttls, recent)
                 ev.append(c)
@@ -1089,3 +1153,42 @@ def pattern_cases(rng=None, sample: int = 0):
         return
     for _ in range(sample):
         yield _pattern_case(*rng.choice(space), rng.choice(MODES), "ok" if rng.random() < 0.85 else rng.choice(["exc", "cancel"]))
+
+
+# ----------------------------------------------------------------------------------------------------
+# control state x transactions, enumerated
+
+CONTROL_SCRIPTS = [
+    ["set 0 t:9 16 a", "incr 4 1 -", "delete 2", "expire 4 80", "get 2", "exists 0"],
+    ["setmany - 0=t:7 2=t:8", "delmany 2 4", f"delmatch {enc('kb2*')}", "set 2 i:1 - nx", "getmany 0 2 4", f"scan {enc('k*')}"],
+]
+CONTROL_INITS = [["set 2 i:5 - a", "set 4 i:41 83 a"], []]
+
+
+def control_cases():
+    """Every control state of `CONTROL_SETS` (a bulk command alone, a single command alone, both, pattern commands, reads) x the
+    place where it is set (before the block / inside the block before the writes / inside the block after the writes, right
+    before the commit / before the block and lifted again inside it before the writes) x two write scripts (single-key
+    writes; bulk and pattern writes plus a conditional set) x two initial stores x 3 modes; the block commits (every 5th
+    case is left by an exception instead), then everything is enabled again and all keys are read."""
+    i = 0
+    for dset in CONTROL_SETS:
+        dis = "disable " + " ".join(dset)
+        for place in ("before", "first", "last", "lifted"):
+            for script in CONTROL_SCRIPTS:
+                for ini in CONTROL_INITS:
+                    for mode in MODES:
+                        i += 1
+                        ev = []
+                        if place in ("before", "lifted"):
+                            ev.append(dis)
+                        ev.append(f"enter {mode}")
+                        if place == "first":
+                            ev.append(dis)
+                        if place == "lifted":
+                            ev.append("enable " + " ".join(dset))
+                        ev += script
+                        if place == "last":
+                            ev.append(dis)
+                        ev += [f"exit {'exc' if i % 5 == 0 else 'ok'}", "enable " + " ".join(CONTROL_WORDS), "getmany 0 2 4", "getexpire 4"]
+                        yield {"config": "facade", "init": ini + ["adv 3"], "events": ev}
